@@ -39,6 +39,17 @@ func init() {
 		st.log = append(st.log[:len(st.log):len(st.log)], LogEntry{Name: name, Kind: "u64", T: []*Term{v}})
 		return one(st, v)
 	}
+	// vpNondetBits(name, bits) uint64 -- a value below 2^bits (zero-extended narrow variable: the range is structural)
+	vpAPI["vpNondetBits"] = func(e *Engine, st *State, args []Value, fn *ssa.Function) []Outcome {
+		name := e.mustConcStr(args[0])
+		bits := e.mustConcInt(args[1])
+		if bits < 1 || bits > 64 {
+			panic(e.abort("vpNondetBits: bad width %d", bits))
+		}
+		v := e.tb.Fresh(name, bits)
+		st.log = append(st.log[:len(st.log):len(st.log)], LogEntry{Name: name, Kind: "u64", T: []*Term{v}})
+		return one(st, e.tb.ZExt(v, 64))
+	}
 	// vpNondetInt(name, lo, hi) int  -- lo <= v <= hi
 	vpAPI["vpNondetInt"] = func(e *Engine, st *State, args []Value, fn *ssa.Function) []Outcome {
 		name := e.mustConcStr(args[0])
